@@ -191,6 +191,71 @@ func TestVerif_C01(t *testing.T) {
 			} else {
 				tx = verifgen.SignMap(raw, ins, verifgen.FirstN(ins))
 			}
+		case c == 9 && rng.Intn(2) == 0: // a special input (mint or deposit) combined with ordinary inputs, either order
+			kind = "special+ordinary"
+			pert = "special-input-with-other-inputs"
+			ins := w.pick(1 + rng.Intn(2))
+			if len(ins) == 0 {
+				continue
+			}
+			units := big.NewInt(int64(1 + rng.Intn(10_0000_0000)))
+			raw := common.NewTransactionV5(ins[0].Asset)
+			mint := rng.Intn(2) == 0
+			if mint {
+				raw.Asset = common.XINAssetId
+			}
+			addSpecial := func() {
+				if mint {
+					raw.AddUniversalMintInput(uint64(3000+i), verifgen.Units(units))
+				} else {
+					a := assets[rng.Intn(len(assets))]
+					for _, x := range assets {
+						if x.id == raw.Asset {
+							a = x
+						}
+					}
+					raw.AddDepositInput(&common.DepositData{Chain: a.chain, AssetKey: a.key, Transaction: fmt.Sprintf("0xmix%d", i), Index: 0, Amount: verifgen.Units(units)})
+				}
+			}
+			first := rng.Intn(2) == 0
+			if first {
+				addSpecial()
+			}
+			for _, in := range ins {
+				raw.AddInput(in.Hash, in.Index)
+			}
+			if !first {
+				addSpecial()
+			}
+			raw.References = []crypto.Hash{sim.LastConsensusTx}
+			// outputs: the special amount alone, or special + ordinary total
+			total := new(big.Int).Set(units)
+			if rng.Intn(2) == 0 {
+				total.Add(total, verifSumUnits(ins))
+			}
+			for _, p := range verifSplit(rng, total, 1+rng.Intn(2)) {
+				specs = append(specs, w.spec(verifgen.Units(p), 2))
+			}
+			verifgen.AddOutputs(raw, specs)
+			tx = raw.AsVersioned()
+			msg := tx.PayloadHash()
+			for k, in := range raw.Inputs {
+				m := map[uint16]*crypto.Signature{}
+				if in.Mint != nil || in.Deposit != nil {
+					sig := sim.Net.Custodian.PrivateSpendKey.Sign(msg)
+					m[0] = &sig
+				} else {
+					idx := k
+					if first {
+						idx = k - 1
+					}
+					for _, ki := range verifgen.FirstN(ins[idx : idx+1])[0] {
+						sig := ins[idx].PrivKey(ki).Sign(msg)
+						m[uint16(ki)] = &sig
+					}
+				}
+				tx.SignaturesMap = append(tx.SignaturesMap, m)
+			}
 		default: // mint with arbitrary amount (Validate itself does not know the schedule)
 			kind = "mint"
 			units := big.NewInt(int64(1 + rng.Intn(100_0000_0000)))
